@@ -152,6 +152,7 @@ open_("C02", "D58", "C03/unsound-note@a.txt:5", ["C03/unsound-blame@a.txt:5"],
       "history (recorded script witnesses/d58_c02_77_183.json, reduced by tools/ddmin.py): S1 creates a.txt with 5 lines, commit; S2 replaces lines 1-2, a person (checkpoint taken) replaces line 3 by three own lines, both left unstaged across two commits of nothing; `git reset --soft HEAD~2`; commit => the person's line 5 is committed as S1's (the original random script un-did, with reset --soft HEAD~2, two commits in which a person had deleted and replaced some of S1's lines of the kept commit): the reconstruction after a soft / mixed reset maps the kept commit's line numbers onto the new content wrongly when the un-done or pending work removes lines",
       "recorded:witnesses/d58_c02_77_183.json", ["reset_over_removed_lines"])
 fixed("C02", "D64", "^fix: cherry-picked commits no longer get notes", "`git cherry-pick C1 C2` (C1: S1's line at the bottom of f.txt; C2: two lines at the top of f.txt and S1's three lines in g.txt) onto a branch that already has the two top lines, so that the shortcut declines: the full replay wrote, for the first new commit, a note that also listed g.txt lines 2-4 - lines that commit does not contain (a person's lines, or past the end of the file)", "c02.cherry_pick_range_first_commit_must_not_list_later_files")
+fixed("C02", "D66", "^fix: CI rebase merge pairs original and rebased", "a pull request of two commits (S1 adds three lines to f.txt; a person deletes lines of g.txt) rebase-merged on the server by plain git: `git-ai ci local merge` paired the original commits (rev-list order, newest first) with the rebased ones (oldest first), so the AI commit's new note was the human commit's empty one and S1's lines 2-4 were blamed on a person", "c02.ci_rebase_merge_of_ai_commit_followed_by_human_commit")
 fixed("C02", "D54", "^fix: CI rebase-merge detection", "a pull request of two commits (the first adds two AI lines at the end of f.txt, the second deletes them again) squash-merged on the server onto a base branch with earlier commits: `git-ai ci local merge` (likewise the GitHub CI run) took the squash for a rebase merge because it walked two commits back from the squash commit into the base branch; the squash commit got the note of the last original commit only, listing lines 8-9 of a 5-line file, and the note of an older base-branch commit was overwritten", "c02.ci_squash_merge_of_two_commits_on_moved_base")
 
 open_("C18", "D49", "C18/alias-tokens-differ@trailing-backslash", [],
